@@ -57,6 +57,9 @@ func suiteNode(c *Ctx) {
 			prof.Timeout, prof.Drop = 120, 150
 		}
 		net.run(prof)
+		if i%2 == 0 {
+			net.stabilise()
+		}
 		c.Class(fmt.Sprintf("scenario/honest/n%d", n))
 	}
 	scenarioD5Fork(c)
@@ -114,7 +117,13 @@ func suiteNode(c *Ctx) {
 		if i%4 == 1 {
 			prof.Timeout = 150
 		}
+		if i%4 == 2 {
+			prof.MaxSteps = 40 + r.Intn(200) // the network heals early: mixed states at low views
+		}
 		net.run(prof)
+		if i%2 == 0 {
+			net.stabilise()
+		}
 		c.Class(fmt.Sprintf("scenario/byzantine/n%d/b%d", n, len(byz)))
 	}
 }
